@@ -10,5 +10,7 @@ pub mod oracle;
 
 #[cfg(all(kani, feature = "c02"))]
 mod c02;
+#[cfg(all(kani, feature = "c03"))]
+mod c03;
 #[cfg(all(kani, feature = "c08"))]
 mod c08;
